@@ -72,6 +72,8 @@ class AdvSched(fakeos.Sched):
     def status_for(self, kernel, proc):
         bad = self.g.flag("bad%d" % proc.pid)
         rc = (10 + proc.pid - kernel.FIRST_PID) if bad else 0
+        if proc.name is None:
+            rc = 7 if bad else 0
         self.rc[proc.pid] = rc
         return rc << 8
 
@@ -83,7 +85,8 @@ def make(n, jobs_hi, budget, kinds=("run_command",), unrelated=False, orders="re
         jobs = g.choose("jobs", jobs_hi) + 1
         sched = AdvSched(g, budget)
         hook = None
-        res = graphs.run_graph(g, specs, root, again=True, jobs=jobs, sched=sched, adversarial=True)
+        res = graphs.run_graph(g, specs, root, again=True, jobs=jobs, sched=sched, adversarial=True,
+                               unrelated=1 if unrelated else 0)
         try:
             D = graphs.describe(specs) + ["jobs=%d" % jobs]
             k = res.kernel
@@ -115,13 +118,15 @@ def make(n, jobs_hi, budget, kinds=("run_command",), unrelated=False, orders="re
                 else:
                     g.require(outcome.get(j) == ["failed"] and codes.get(j) == rc, "account:wrong-outcome",
                               "%s exited %s but is reported %s with code %s; %s; events %s" % (p.name, rc, outcome.get(j), codes.get(j), D, ev))
-            g.require((res.status == 0) == all(v == 0 for v in sched.rc.values()), "account:exit-status",
+            g.require((res.status == 0) == all(v == 0 for p_, v in sched.rc.items() if k.procs[p_].name is not None), "account:exit-status",
                       "status %r, child codes %s" % (res.status, sched.rc))
             reaps_main = [e for e in k.events if e[0] == "reap" and e[4] == "main" and e[3] is not None]
             g.require(not reaps_main, "sigchld:task-child-reaped-outside-handler",
                       "task child reaped by the main flow (Popen.__del__/_cleanup) instead of the SIGCHLD handler: %s" % reaps_main)
             if sched.used:
                 g.goal("schedule deviates from eager delivery")
+            if any(e[0] == "exit" and e[3] is None for e in k.events):
+                g.goal("unrelated child exits during the run")
             if any(e[0] == "exit" for e in k.events) and sched.used and any(
                     k.events[i][0] == "exit" and k.events[i + 1][0] == "exit" for i in range(len(k.events) - 1)):
                 g.goal("two exits before one delivery")
@@ -139,6 +144,9 @@ def spaces(tier):
           Space("n3-j2-b1", make(3, 2, 1),
                 "N=3 run_command tasks, every edge set, par bits, jobs 1..2, <=1 schedule deviation", depth=8,
                 goals=["schedule deviates from eager delivery"], outside=["N>3", ">2 deviations", "pid reuse"])]
+    sp.append(Space("n2-unrelated-child-b2", make(2, 2, 2, unrelated=True),
+                    "N<=2 run_command tasks plus one child of cond that is not a task (exits 0 or 7 at any point), jobs 1..2, <=2 deviations",
+                    depth=7, goals=["unrelated child exits during the run"]))
     if tier == "thorough":
         sp.append(Space("n3-j3-b2", make(3, 3, 2),
                         "N=3 run_command tasks, jobs 1..3, <=2 schedule deviations", depth=9, tiers=("thorough",),
